@@ -1,4 +1,5 @@
 import Litestream.Model.Plan
+import Litestream.Model.LtxName
 import Litestream.Driver.Util
 /-! Driver handlers for the planner (C08, C15). -/
 namespace Litestream.Driver
@@ -41,5 +42,39 @@ def handleChain (args : List (String × String)) : String :=
 end Litestream.Driver
 
 namespace Litestream.Driver
-def planHandlers : Handlers := [("plan", handlePlan), ("chain", handleChain)]
+/-! LTX names (`Model/LtxName.lean`); names travel as hex of their bytes.
+`lparse HEX=<hex>` -> `ok <min>:<max>` | `none`;  `lfmt A=<min> B=<max>` -> the name;
+`llist SEEK=<n> N=<hex>,…` -> `<min>:<max>,…` | `-` -/
+
+def lnNib? (c : Char) : Option Nat :=
+  if '0' ≤ c ∧ c ≤ '9' then some (c.toNat - 48) else if 'a' ≤ c ∧ c ≤ 'f' then some (c.toNat - 87) else none
+
+def lnUnhex? : List Char → Option (List Char)
+  | [] => some []
+  | [_] => none
+  | a :: b :: rest => do
+    let x ← lnNib? a
+    let y ← lnNib? b
+    let r ← lnUnhex? rest
+    pure (Char.ofNat (x * 16 + y) :: r)
+
+def handleLParse (args : List (String × String)) : String :=
+  match (arg? args "HEX").bind fun s => lnUnhex? s.toList with
+  | some n => match LtxName.parseLtx n with | some (a, b) => s!"ok {a}:{b}" | none => "none"
+  | none => "bad-op"
+
+def handleLFmt (args : List (String × String)) : String :=
+  match natArg? args "A", natArg? args "B" with
+  | some a, some b => if a < 2 ^ 64 ∧ b < 2 ^ 64 then String.ofList (LtxName.fmtLtx a b) else "bad-op"
+  | _, _ => "bad-op"
+
+def handleLList (args : List (String × String)) : String :=
+  match natArg? args "SEEK", (arg? args "N").bind fun s => (splitList s ',').mapM fun h => lnUnhex? h.toList with
+  | some seek, some ns =>
+    let out := ",".intercalate ((LtxName.listLtx ns seek).map fun p => s!"{p.1}:{p.2}")
+    if out.isEmpty then "-" else out
+  | _, _ => "bad-op"
+
+def planHandlers : Handlers :=
+  [("plan", handlePlan), ("chain", handleChain), ("lparse", handleLParse), ("lfmt", handleLFmt), ("llist", handleLList)]
 end Litestream.Driver
